@@ -35,3 +35,18 @@ for p in "${pids[@]}"; do wait $p || rc=1; done
 [ $rc = 0 ] || { echo "build_h3: compile failed" >&2; exit 2; }
 ar rcs "$out/libh3.a" "$out"/*.o
 echo "$CC $FL" > "$out/flags"
+if [ "$variant" = alloc ] || [ "$variant" = allocsan ]; then
+  # reference copy of the library with the default allocator, every public function prefixed ref_, all other
+  # symbols made local, so that it can be linked next to the ledger-allocator build
+  mkdir -p "$out/ref"
+  pids=()
+  for f in $REPO/src/h3lib/lib/*.c; do
+    b=$(basename "$f" .c)
+    gcc $COMMON -O2 -DH3_PREFIX=ref_ $INC -c "$f" -o "$out/ref/$b.o" &
+    pids+=($!)
+  done
+  for p in "${pids[@]}"; do wait $p || rc=1; done
+  [ $rc = 0 ] || { echo "build_h3: ref compile failed" >&2; exit 2; }
+  ld -r -o "$out/ref_all.tmp.o" "$out"/ref/*.o && objcopy --wildcard -G 'ref_*' "$out/ref_all.tmp.o" "$out/ref_all.o" || exit 2
+  rm -rf "$out/ref" "$out/ref_all.tmp.o"
+fi
